@@ -17,6 +17,15 @@ CHECKS = {
               "differential runs (all sources <=16 bit, thorough: all 2^32 values of every 32-bit source against a 128-bit oracle) and boundary/random "
               "runs through the raw helper and the six public paths on three ABIs."),
         note=NOTE + "Out of scope: bool destination from non-bool source (never produced by the ABI mapping; C06_bool_witness)."),
+    "C05": dict(
+        engine="ptr", design_ref="DESIGN.md §6 C05",
+        technique="Lean 4 theorems on a 64-bit wrap-around model of pointer arithmetic (omega, case analysis) + differential execution on a foreign-ABI backend + exact-integer oracle",
+        text=("Proof: C05_inside/C05_inside_region (a result is always inside p's sandbox, unconditional), C05_null_aborts, C05_exact_partial "
+              "(exact address or abort whenever |n|*s + 2^k <= 2^64), C05_compound/C05_forms_inside for the ten source forms, stride = guest size; "
+              "C05_wrap_witness proves the full statement false (known finding: offsets >= 2^64-2^k wrap). Source facts (which operator each macro "
+              "calls) are regenerated from rlbox.hpp on every run and are proof obligations; the model is tied to the code by ~300k differential ops "
+              "(10 pointee types x 10 forms x 15 operand types x 3 wrappers x boundary values) with an exact-integer oracle."),
+        note=NOTE + "Known finding F8 (offset wrap) is listed in known_findings.json; F1 (p-- incremented) was repaired by a fix: commit."),
 }
 
 TODO_REASON = "check not built yet in this round (design in DESIGN.md §6); will be claimed when its theorems and correspondence check exist"
